@@ -1147,6 +1147,21 @@ class Interp:
             if cur is None:
                 continue
             s = dict(cur)
+            wt = getattr(self, "watch", None)
+            if wt and sg != ("back",) and (inst["key"], bi) in wt:
+                # entry state of a watched counting loop: how far is the counter from its bound?
+                for (li, c, bnd) in wt[(inst["key"], bi)]:
+                    if bnd is None:
+                        # a Range / RangeInclusive iterator: (start, end[, exhausted])
+                        it = self.materialize(s.get((fid, c)))
+                        if isinstance(it, St) and len(it.fields) >= 2:
+                            vc, vb = self.materialize(it.fields[0]), self.materialize(it.fields[1])
+                        else:
+                            continue
+                    else:
+                        vc, vb = s.get((fid, c)), s.get((fid, bnd))
+                    if isinstance(vc, In) and isinstance(vb, In):
+                        self.trips.append((inst["key"], li, vb.lo - vc.hi, vc.lo - vb.hi, repr(vc), repr(vb)))
             outs = self.exec_block(inst, fid, bi, s)
             for succ, s2 in outs:
                 if succ != "return":
